@@ -71,6 +71,9 @@ func vfGenStreamMut(t *rapid.T, ntail int) vfStreamMut {
 	case 5, 6:
 		m.Kind = "type"
 		m.Val = uint32(rapid.Byte().Draw(t, "type"))
+		if rapid.Bool().Draw(t, "validtype") {
+			m.Val = uint32(rapid.SampledFrom(vfC07TypeBytes).Draw(t, "typeof"))
+		}
 	case 7:
 		m.Kind = "framelen"
 		m.Val = rapid.SampledFrom([]uint32{0, 1, 2, 4, 5, 256*1024 + 1, 1<<32 - 1, 1 << 31}).Draw(t, "framelen")
@@ -421,33 +424,28 @@ func vfRunC07One(ctx *vfCtx, c vfCaseC07) {
 }
 
 // vfRunC07Enum: every cut offset of the tail of one generated session.
+// every request type, the reply types a confused peer might send, and bytes that are no type at all
+var vfC07TypeBytes = []byte{1, 2, 3, 4, 5, 6, 7, 8, 9, 10, 11, 12, 13, 14, 15, 16, 17, 18, 19, 20, 200, 201, 0, 21, 101, 102, 105, 255}
+
 func vfRunC07Enum(ctx *vfCtx, c vfCaseC07) {
 	kind := c.Srv.Kind
 	ctx.Class("server=" + kind)
 	total := 0
 	probe := c
 	probe.Mut = vfStreamMut{Kind: "none"}
+	var tailLens [][]int
 	full := vfC07Run(ctx, &probe, func(frames [][]byte, lens [][]int) []byte {
 		d := vfApplyStreamMut(frames, lens, probe.Mut)
 		total = len(d)
+		tailLens = lens
 		return d
 	}, len(c.Tail), "C07/full")
 	_ = full
 	twins := map[int]*vfC07Result{}
 	runs := 0
-	var offs []int
-	if total <= 600 {
-		for k := 0; k < total; k++ {
-			offs = append(offs, k)
-		}
-	} else {
-		for k := 0; k < total; k += 1 + total/600 {
-			offs = append(offs, k)
-		}
-	}
-	for _, k := range offs {
+	runOne := func(m vfStreamMut) {
 		one := c
-		one.Mut = vfStreamMut{Kind: "cut", Cut: k}
+		one.Mut = m
 		vfJournal("C07", "one", vfMustJSON(one))
 		var nWell int
 		var a *vfC07Result
@@ -476,6 +474,53 @@ func vfRunC07Enum(ctx *vfCtx, c vfCaseC07) {
 		vfC07Compare(ctx, &one, a, tw, one, nWell)
 		runs++
 	}
+	// a mutation inside a frame is judged the way the "one" sub-check judges it (its twin is the well-formed
+	// prefix of the mutated stream, and a frame that stays well-formed is only held to termination and clean-up)
+	runMut := func(m vfStreamMut) {
+		one := c
+		one.Mut = m
+		vfJournal("C07", "one", vfMustJSON(one))
+		if fl := vfProtect(func() { vfRunC07One(ctx, one) }); fl != nil {
+			fl.AltSub, fl.AltCase = "one", one
+			panic(fl)
+		}
+		runs++
+	}
+	// every cut offset (a sample of 600 when the tail is longer)
+	var offs []int
+	if total <= 600 {
+		for k := 0; k < total; k++ {
+			offs = append(offs, k)
+		}
+	} else {
+		for k := 0; k < total; k += 1 + total/600 {
+			offs = append(offs, k)
+		}
+	}
+	for _, k := range offs {
+		runOne(vfStreamMut{Kind: "cut", Cut: k})
+	}
+	cuts := runs
+	// every frame x every request type byte (and a few that are none) - a request re-typed into another
+	// request of the same layout is well-formed and must be served and cleaned up like any other (seed C07-c)
+	for k := range tailLens {
+		for _, tb := range vfC07TypeBytes {
+			runMut(vfStreamMut{Kind: "type", Frame: k, Val: uint32(tb)})
+		}
+	}
+	// every length / count field x the hostile values
+	for k := range tailLens {
+		for f := range tailLens[k] {
+			for _, v := range []uint32{0, 1, 1<<31 - 1, 1<<32 - 1, 256 * 1024} {
+				runMut(vfStreamMut{Kind: "lenfield", Frame: k, Field: f, Val: v})
+			}
+			for _, d := range []int{-1, 1} {
+				runMut(vfStreamMut{Kind: "lenfieldrel", Frame: k, Field: f, Val: uint32(d)})
+			}
+		}
+	}
+	vfAddExtra("field_and_type_mutations_enumerated", runs-cuts)
+	runs = cuts
 	vfAddExtra("cut_offsets_enumerated", runs)
 	ctx.NonTrivial()
 }
